@@ -198,8 +198,10 @@ func Scenarios(tier string) []*Scenario {
 	wdP.Name = "T4-withdrawals"
 	wdP.AllEth1Creds = true
 	wd := &Scenario{Name: "withdrawals/all-forks", Preset: wdP, Slots: 32, Menu: SmallMenu, NKeys: 24, Default: defaultBlock}
+	// 32 sync committee seats for 16 validators: every validator sits twice in each aggregate
+	sync32 := &Scenario{Name: "healthy/sync-committee-of-32", Preset: TSync32(AllForks), Slots: 24, Default: defaultBlock, Menu: SmallMenu, NKeys: 24}
 	if tier == "thorough" {
-		return []*Scenario{healthy, leak, dep, phase0only, altairLong, sameEpoch, eject, mass, wd}
+		return []*Scenario{healthy, leak, dep, phase0only, altairLong, sameEpoch, eject, mass, wd, sync32}
 	}
 	return []*Scenario{healthy, leak, dep, phase0only, mass, wd}
 }
